@@ -131,3 +131,36 @@ def no_cross_option_flow(ctx, clause, api="shexer.shaper:Shaper.__init__"):
                                       "also acts as %s" % (o, prm, f.short, cs.func.short, norm(arg)[:40], o, prm)))
     obs.append(Ob(clause, "R-PLUMB", "R-PLUMB|cross-option|scan", "shexer:0", True, "%d same-name argument sites examined for cross-option flows" % n))
     return obs, n
+
+
+def exclusive_source(ctx, clause, option, api="shexer.shaper:Shaper.__init__"):
+    """A parameter named <option> receives nothing but the user's <option> (or a default constant): no value that another
+    component produced is routed into it.  For the graph sources this is what keeps the choice of reader - hence the order
+    in which statements are seen - a function of the arguments alone."""
+    g, p, r = ctx.flow, ctx.p, ctx.r
+    init = p.func(api)
+    pn = g.param(init.qual, option)
+    obs, n = [], 0
+    for f in p.funcs.values():
+        if f is init or option not in f.bound_params:
+            continue
+        for cs in r.callers_of.get(f.qual, []):
+            if not ctx.reachable(cs.func) or cs.kind == "byname":
+                continue
+            arg = bind_args(cs.node, f)["bound"].get(option)
+            if arg is None:
+                continue
+            back = g.back([g.enode(arg)], labels=("copy",))
+            if pn not in back:
+                continue
+            n += 1
+            # anything kept in a field of another component that can flow (by copy) into the argument
+            other = sorted("%s.%s" % (x[1].split(":")[-1], x[2]) for x in back if x[0] == "f" and not (x[1].endswith(":Shaper")))
+            key = "R-PLUMB|exclusive-source|%s|%s->%s" % (option, cs.func.short, f.short)
+            if any(o.key == key for o in obs):
+                continue
+            obs.append(Ob(clause, "R-PLUMB", key, cs.func.loc(cs.node), not other,
+                          "`%s` of %s carries the user's %s only" % (option, f.short, option) if not other else
+                          "`%s=%s` in %s can also carry a value taken from %s: the component that receives it no longer works from "
+                          "what the user supplied as %s" % (option, norm(arg)[:40], cs.func.short, ", ".join(other[:3]), option)))
+    return obs, n
